@@ -88,6 +88,18 @@ Theorem C02_no_send_on_closed_channel :
 Proof. exact no_send_on_closed_lemma. Qed.
 Print Assumptions C02_no_send_on_closed_channel.
 
+(* 3d. close(ackerChan), ackerAbort.Signal() and ackerEnded.Signal() happen at most once per session (a second close
+       would panic): in every reachable state in which the step executing one of them is enabled - main not yet in
+       collectLeftovers, main leaving the soft wait, the acknowledger not yet returned - it has not been executed. *)
+Theorem C02_signals_once :
+  forall (P : params) (s : state) (ss : sess),
+  reach P s -> cur s = Some ss ->
+  (collecting (pc s) = false -> s_aclosed ss = false /\ s_abort ss = false) /\
+  (hard_collecting (pc s) = false -> s_abort ss = false) /\
+  (s_apc ss <> AEnded -> s_ended ss = false).
+Proof. exact signals_once_lemma. Qed.
+Print Assumptions C02_signals_once.
+
 (* 4. Progress, PARTIAL.  From any state at a session boundary (run() about to open a connection) without a stop
       request, the healthy continuation - connect ok, every send ok, every ack read returning the id of the chunk
       just sent - of length 5 + 6 * (leftovers + queued) gets every leftover (oldest first) and every queued chunk
